@@ -23,6 +23,8 @@ def run(repo, run, tier):
     controller(repo, run)
     estimate(repo, run)
     richardson_retry(repo, run)
+    recorded_pairing(repo, run)
+    nan_rejection(repo, run)
 
 
 def typestate(repo, run):
@@ -98,8 +100,17 @@ def controller(repo, run):
     step_e, redo_e = ret.value.elts
     # redo expression: bool(corr < c)
     r = redo_e
-    if isinstance(r, ast.Call) and fname(r) == "bool" and r.args:
-        r = r.args[0]
+    negated = False
+    for _ in range(4):
+        if isinstance(r, ast.Call) and fname(r) == "bool" and r.args:
+            r = r.args[0]
+        elif isinstance(r, ast.UnaryOp) and isinstance(r.op, ast.Not):
+            r, negated = r.operand, not negated
+    if negated and isinstance(r, ast.Compare) and len(r.ops) == 1:
+        # not (corr >= c)  is the redo decision  corr < c  (and, unlike it, also rejects a NaN)
+        flip = {ast.GtE: ast.Lt, ast.Gt: ast.LtE, ast.LtE: ast.Gt, ast.Lt: ast.GtE}.get(type(r.ops[0]))
+        if flip is not None:
+            r = ast.Compare(left=r.left, ops=[flip()], comparators=r.comparators)
     c_val = None
     corr_name = None
     if isinstance(r, ast.Compare) and len(r.ops) == 1:
@@ -347,3 +358,140 @@ def ancestors_of(node):
     while p is not None:
         yield p
         p = getattr(p, "_parent", None)
+
+
+def recorded_pairing(repo, run):
+    """the controller accepts (dTime, dState) of the LAST attempt (a rejected step is retried with a shorter one): what integrate() records for the step must be
+    exactly that pair -- the state for the time it belongs to -- or a tolerance-satisfying step is stored under the label of a time it was not computed for"""
+    from ..imodel import IntegrateModel, DS
+    from ..sym import Poly
+    rid = run.rule("C05.6", "integrate() records the accepted attempt as it is: time row = t[counter] + dTime and state row = y[counter] + dState with (dTime, dState) "
+                            "the pair returned by this iteration's integrator call (never the requested step or the target time)", floor=2)
+    m = IntegrateModel(repo)
+    c = m.canon
+    wy, wt = c.poly(m.commit_y.value), c.poly(m.commit_t.value)
+    oky = wy == Poly.atom("self.__y[self.counter]") + Poly.atom(m.dState)
+    okt = wt == Poly.atom("self.__t[self.counter]") + Poly.atom(m.dTime)
+    run.judged(rid, "state row: %s" % src(m.commit_y)[:100], ok=oky)
+    run.judged(rid, "time row: %s" % src(m.commit_t)[:100], ok=okt)
+    if not oky:
+        run.report("C05.6", DS, m.commit_y, "the recorded state is %s, not y[counter] + the increment of the accepted attempt (%s)" % (wy.canon(), m.dState))
+    if not okt:
+        run.report("C05.6", DS, m.commit_t, "the recorded time is not t[counter] + the step the accepted attempt actually took (%s): when the controller rejected the requested "
+                                            "step and accepted a shorter one, the state of the shorter step is stored under another time (e.g. the target), an error far "
+                                            "above the tolerances that nothing reports" % (m.dTime,))
+
+
+# ------------------------------------------------------------------------------------------------
+def nan_rejection(repo, run, rule_id="C05.7"):
+    """'if the tolerances cannot be met an error is raised instead of an inaccurate state being recorded': a step whose error estimate is not a number (the
+    right-hand side returned nan/inf) must be REJECTED by the controller.  Every ordering comparison with a NaN is False, so a redo flag of the form
+    `corr < c` rejects only if NaN cannot reach `corr`.  NaN-taint is propagated from the error estimate (and the stored earlier estimates) through
+    update_timestep; `where(x > 0, f(x), const)` is the sanitiser the code uses (NaN > 0 is False, so the constant is taken)."""
+    rid = run.rule(rule_id, "NaN-taint analysis of update_timestep: the redo flag evaluates to True (reject) when the error estimate is NaN -- either NaN cannot reach the "
+                            "compared quantity (sanitised by `where(x > 0, f(x), const)` on every branch) or the comparison is of the negated form", floor=2)
+    fn = repo.get(TPL, "IntegratorTemplate.update_timestep")
+    run.analysed_fn(TPL, fn)
+    SOURCES = {"diff", "dState", "epsilon_last", "epsilon_last_last", "system_scaling"}
+
+    def names_in(n):
+        return {x.id for x in ast.walk(n) if isinstance(x, ast.Name)}
+
+    def taint(n, env):
+        if isinstance(n, ast.Name):
+            return set(env.get(n.id, ()))
+        if isinstance(n, ast.Constant):
+            return set()
+        if isinstance(n, ast.Subscript) and isinstance(n.slice, ast.Constant) and isinstance(n.slice.value, str) and is_self_attr(n.value, "solver_dict"):
+            return {n.slice.value} if n.slice.value in SOURCES else set()
+        if isinstance(n, ast.Call) and fname(n) == "where" and len(n.args) == 3:
+            cond, a, b = n.args
+            ta = taint(a, env)
+            cmps = [c for c in ast.walk(cond) if isinstance(c, ast.Compare) and all(isinstance(o, (ast.Lt, ast.LtE, ast.Gt, ast.GtE)) for o in c.ops)]
+            tested = set()
+            for c in cmps:
+                for side in [c.left] + list(c.comparators):
+                    tested |= taint(side, env)
+            # with a NaN among the tested quantities the condition is False and `b` is selected
+            if ta and ta <= tested:
+                return taint(b, env)
+            return ta | taint(b, env) | taint(cond, env)
+        if isinstance(n, ast.Call) and fname(n) in ("nan_to_num",):
+            return set()
+        if isinstance(n, ast.Call) and isinstance(n.func, ast.Attribute) and n.func.attr == "get" and is_self_attr(n.func.value, "solver_dict") and n.args and \
+                isinstance(n.args[0], ast.Constant):
+            return {n.args[0].value} if n.args[0].value in SOURCES else set()
+        out = set()
+        for ch in ast.iter_child_nodes(n):
+            if isinstance(ch, (ast.expr, ast.keyword)):
+                out |= taint(ch.value if isinstance(ch, ast.keyword) else ch, env)
+        return out
+    results = []
+
+    def walk(stmts, env):
+        """returns list of envs at fall-through"""
+        envs = [env]
+        for st in stmts:
+            nxt = []
+            for e in envs:
+                if isinstance(st, ast.Assign):
+                    e2 = dict(e)
+                    if len(st.targets) == 1 and isinstance(st.targets[0], ast.Tuple) and isinstance(st.value, ast.Tuple) and len(st.targets[0].elts) == len(st.value.elts):
+                        vals = [taint(v, e) for v in st.value.elts]
+                        for t, v in zip(st.targets[0].elts, vals):
+                            if isinstance(t, ast.Name):
+                                e2[t.id] = v
+                    else:
+                        v = taint(st.value, e)
+                        for t in st.targets:
+                            for x in ast.walk(t):
+                                if isinstance(x, ast.Name) and isinstance(x.ctx, ast.Store):
+                                    e2[x.id] = v
+                    nxt.append(e2)
+                elif isinstance(st, ast.AugAssign) and isinstance(st.target, ast.Name):
+                    e2 = dict(e)
+                    e2[st.target.id] = set(e.get(st.target.id, ())) | taint(st.value, e)
+                    nxt.append(e2)
+                elif isinstance(st, ast.If):
+                    nxt += walk(st.body, dict(e)) + walk(st.orelse, dict(e))
+                elif isinstance(st, ast.With):
+                    nxt += walk(st.body, dict(e))
+                elif isinstance(st, ast.Return):
+                    if isinstance(st.value, ast.Tuple) and len(st.value.elts) == 2:
+                        results.append((st, st.value.elts[1], dict(e)))
+                else:
+                    nxt.append(e)
+            envs = nxt
+        return envs
+    walk(fn.body, {})
+    if not results:
+        raise AnalysisError("update_timestep: no `return step, redo` reached by the taint walk")
+
+    def nan_value(n, env):
+        """value of a boolean expression when every tainted operand is NaN: True / False / None (not decided)"""
+        if isinstance(n, ast.Call) and fname(n) == "bool" and n.args:
+            return nan_value(n.args[0], env)
+        if isinstance(n, ast.UnaryOp) and isinstance(n.op, ast.Not):
+            v = nan_value(n.operand, env)
+            return None if v is None else (not v)
+        if isinstance(n, ast.Compare) and len(n.ops) == 1:
+            if taint(n.left, env) or taint(n.comparators[0], env):
+                return isinstance(n.ops[0], ast.NotEq)
+            return None
+        if isinstance(n, ast.Name):
+            return None
+        return None
+    seen = set()
+    for st, redo, env in results:
+        t = taint(redo, env)
+        key = (src(redo), tuple(sorted(t)))
+        if key in seen:
+            continue
+        seen.add(key)
+        ok = not t or nan_value(redo, env) is True
+        run.judged(rid, "redo flag `%s`: NaN can reach it from %s" % (src(redo), sorted(t) or "nothing"), ok=ok)
+        if not ok:
+            run.report(rule_id, TPL, redo, "a NaN error estimate (from %s) reaches the quantity compared in the redo flag `%s`; the comparison is then False, i.e. 'do not redo': a step "
+                                           "computed from non-finite right-hand-side values is accepted and recorded, the proposed next step is NaN, and integrate() ends 'successfully' "
+                                           "instead of raising the integration-failure error" % (sorted(t), src(redo)))
+    run.judged(rid, "return sites of update_timestep analysed: %d" % len(results), ok=True)
